@@ -171,6 +171,18 @@ theorem opensCm_canon (μ : Mode) (nx : Option Nat) : opensCm μ nx = opensCm μ
 theorem classOf_canon (μ : Mode) (c : Nat) (nx : Option Nat) : classOf μ c nx = classOf μ c (canonNx nx) := by
   simp only [classOf, ← opensCm_canon]
 
+/-- `classOf` with the scanner's step passed in (the table obligation evaluates the step once per cell) -/
+def classOfR (r : Mode × List Ev) (μ : Mode) (c : Nat) (nxt : Option Nat) : CC :=
+  match r.2 with
+  | e :: _ => .bracket e
+  | [] =>
+    if inCm r.1 || (μ == .BCS && c =ᶜ '/') || opensCm r.1 nxt then .comment
+    else if c =ᶜ ' ' && r.1 == .N then .blank
+    else if c =ᶜ '\n' && r.1 == .N then .lbreak
+    else .tok
+
+theorem classOf_eq (μ : Mode) (c : Nat) (nxt : Option Nat) : classOf μ c nxt = classOfR (step μ c) μ c nxt := rfl
+
 /-- the pending window is (going to be) erased: comments are ignored, and the scanner is inside a comment or has just
 read its first character -/
 def pd (ig : Ign) (μ : Mode) (nxt : Option Nat) : Bool := ig.cm && (inCm μ || opensCm μ nxt)
@@ -294,5 +306,42 @@ is a bracket that opens / closes a group), in order. -/
 noncomputable def retCheck (ig : Ign) (cfg : Cfg Gen.Cls) : Bool :=
   allS.all fun s => (rho s).all fun μ =>
     ((other :: ascii).all fun n => cellOK ig cfg s μ n) && eofOK2 ig cfg s μ
+
+/-! ## the same obligation, arranged for the kernel: the scanner's step is evaluated once per cell -/
+
+noncomputable def cellOKF (ig : Ign) (cfg : Cfg Gen.Cls) (s : S) (μ : Mode) (n : Nat) : Bool :=
+  match hInfo cfg s n with
+  | none => true
+  | some (s1, ret1, adv1, a1) =>
+    match step μ n with
+    | (μ', evs) =>
+      let d := pd ig μ (some n)
+      if ret1 then
+        adv1 && lookaheads.all fun nx =>
+          stepOK (isEmptySt cfg s) a1 d (pd ig μ' nx) (outK ig (classOfR (μ', evs) μ n nx))
+      else
+        !adv1 &&
+        match firstOK (isEmptySt cfg s) a1 d with
+        | none => false
+        | some e1 =>
+          match hInfo cfg s1 n with
+          | none => true
+          | some (_, _, adv2, a2) =>
+            adv2 && lookaheads.all fun nx =>
+              stepOK (e1 || isEmptySt cfg s1) a2 d (pd ig μ' nx) (outK ig (classOfR (μ', evs) μ n nx))
+
+theorem cellOKF_eq (ig : Ign) (cfg : Cfg Gen.Cls) (s : S) (μ : Mode) (n : Nat) :
+    cellOKF ig cfg s μ n = cellOK ig cfg s μ n := by
+  unfold cellOKF cellOK
+  cases hInfo cfg s n with
+  | none => rfl
+  | some x => rfl
+
+noncomputable def retCheckF (ig : Ign) (cfg : Cfg Gen.Cls) : Bool :=
+  allS.all fun s => (rho s).all fun μ =>
+    ((other :: ascii).all fun n => cellOKF ig cfg s μ n) && eofOK2 ig cfg s μ
+
+theorem retCheckF_eq (ig : Ign) (cfg : Cfg Gen.Cls) : retCheckF ig cfg = retCheck ig cfg := by
+  simp only [retCheckF, retCheck, cellOKF_eq]
 
 end Lex
